@@ -233,6 +233,9 @@ func cmdCheck(args []string) {
 	if !ok {
 		fatal2("unknown property %q", *prop)
 	}
+	if v, set := os.LookupEnv("VERIF_VARIANT"); set {
+		cfg.Variant = v // debugging aid: build the worker with another rewriter variant
+	}
 	seed := uint64(1)
 	if s := os.Getenv("VERIF_SEED"); s != "" {
 		v, err := strconv.ParseInt(s, 0, 64)
